@@ -3,6 +3,7 @@ package syncsplit
 import (
 	"context"
 	"fmt"
+	"os"
 	"runtime"
 	"sort"
 	"strings"
@@ -19,6 +20,12 @@ import (
 	"nriverif/ev"
 	"nriverif/fx"
 )
+
+// spinLimit: see observer.stuck.
+const spinLimit = 20000
+
+// noAbort disables the short cut for a sender that stopped making progress.
+var noAbort = os.Getenv("VERIF_C09_NOABORT") == "1"
 
 const (
 	// msgMax is ttrpc's messageLengthMax: a request whose encoding is longer is refused on
@@ -278,7 +285,8 @@ func genCount(t *rapid.T, label string, max int, edges []int) int {
 	return rapid.IntRange(lo, hi).Draw(t, label+"-n")
 }
 
-var nearK = []int{1, 2, 3, 4, 5, 7, 8, 9, 12, 15, 16, 17, 24, 33, 64}
+// (rapid favours the front of a sampled list: the divisors around the 8-object floor come first)
+var nearK = []int{9, 16, 8, 17, 12, 4, 15, 2, 1, 3, 5, 7, 24, 33, 64}
 var nearSlack = []int{4096, 8 << 10, 60 << 10, 64<<10 + 200, 70 << 10, 128 << 10}
 
 // genList draws a list plan of about `budget` padding bytes. n is a hint: distributions
@@ -323,7 +331,9 @@ func genList(t *rapid.T, label string, n, max, budget int, dists []string) ListP
 		}
 		l.Dist = fmt.Sprintf("nearlimit/%d", k)
 	case "fewhuge":
-		h := rapid.IntRange(1, 12).Draw(t, label+"-huge")
+		// (drawn "from the top": rapid favours small integers, the interesting states have
+		// several objects near the limit)
+		h := 12 - rapid.IntRange(0, 11).Draw(t, label+"-huge")
 		if h > l.N {
 			h = l.N
 		}
@@ -347,21 +357,25 @@ func genList(t *rapid.T, label string, n, max, budget int, dists []string) ListP
 			if left < maxPad/8 && len(l.Over) > 0 {
 				break
 			}
-			s := rapid.IntRange(maxPad/8, maxPad).Draw(t, label+"-hsize")
+			s := maxPad - rapid.IntRange(0, maxPad/8*7).Draw(t, label+"-hsize")
 			if s > left {
 				s = left
 			}
 			left -= s
 			l.Over = append(l.Over, At{I: i, Size: s})
 		}
-		l.Base = rapid.IntRange(0, 60000).Draw(t, label+"-base")
+		l.Base = 60000 - rapid.IntRange(0, 60000).Draw(t, label+"-base")
 		if l.Base > left/l.N {
 			l.Base = left / l.N
 		}
 	case "explicit":
 		left := budget
+		avg := budget / l.N
+		if avg > maxPad/2 {
+			avg = maxPad / 2
+		}
 		for i := 0; i < l.N; i++ {
-			s := rapid.OneOf(rapid.IntRange(0, 200), rapid.IntRange(0, 300000), rapid.IntRange(300000, maxPad)).Draw(t, label+"-size")
+			s := rapid.OneOf(rapid.IntRange(avg/2, 2*avg), rapid.IntRange(0, 2*avg), rapid.IntRange(0, 200), rapid.IntRange(0, maxPad)).Draw(t, label+"-size")
 			if s > left {
 				s = left
 			}
@@ -384,7 +398,7 @@ func genC09(t *rapid.T) C09Case {
 	var c C09Case
 	np := genCount(t, "pods", maxPods, podEdges)
 	nc := genCount(t, "ctrs", maxCtrs, ctrEdges)
-	mode := rapid.SampledFrom([]string{"small", "fill", "fill", "fill", "fill", "fill", "fill", "free", "free"}).Draw(t, "mode")
+	mode := rapid.SampledFrom([]string{"fill", "fill", "fill", "fill", "fill", "fill", "free", "free", "small"}).Draw(t, "mode")
 	switch mode {
 	case "small": // class (a): everything fits one message
 		total := rapid.IntRange(0, 3<<20).Draw(t, "total")
@@ -432,7 +446,7 @@ func genC09(t *rapid.T) C09Case {
 			Ignore: rapid.Bool().Draw(t, "upd-ignore"),
 		})
 	}
-	c.RuntimeFails = rapid.IntRange(0, 6).Draw(t, "runtime-fails") == 0
+	c.RuntimeFails = rapid.IntRange(0, 4).Draw(t, "runtime-fails") == 0
 	return c
 }
 
@@ -452,6 +466,17 @@ type observer struct {
 	mu     sync.Mutex
 	chunks []Chunk
 	rpcs   int
+	sumP   int // objects received over all RPCs
+	sumC   int
+	// stuck is set (and onStuck called once) when the sender has demonstrably stopped making
+	// progress: spinLimit consecutive object-less "more" messages, or more than three times
+	// the runtime's objects (+50) transmitted. The transfer is then cut short by cancelling
+	// the context the runtime handed to the NRI callback; left alone it would run into the
+	// request timeout (a regress replay of D5 does exactly that when VERIF_C09_NOABORT=1).
+	limitP  int
+	limitC  int
+	stuck   string
+	onStuck func()
 	calls  int    // invocations of the plugin's Synchronize handler
 	diff   string // first difference between a delivered state and the runtime's
 	gotP   int
@@ -464,13 +489,30 @@ func (o *observer) intercept(ctx context.Context, um ttrpc.Unmarshaler, _ *ttrpc
 		if req, ok := v.(*api.SynchronizeRequest); ok && err == nil {
 			o.mu.Lock()
 			o.rpcs++
+			o.sumP += len(req.Pods)
+			o.sumC += len(req.Containers)
 			ch := Chunk{P: len(req.Pods), C: len(req.Containers), More: req.More, N: 1}
 			if n := len(o.chunks); n > 0 && o.chunks[n-1].P == ch.P && o.chunks[n-1].C == ch.C && o.chunks[n-1].More == ch.More {
 				o.chunks[n-1].N++
 			} else if n < 400 {
 				o.chunks = append(o.chunks, ch)
 			}
+			var cb func()
+			if o.stuck == "" && o.onStuck != nil {
+				if l := o.chunks[len(o.chunks)-1]; l.P == 0 && l.C == 0 && l.More && l.N >= spinLimit {
+					o.stuck = fmt.Sprintf("%d consecutive messages without any object that announced more", l.N)
+				} else if o.sumP > o.limitP || o.sumC > o.limitC {
+					o.stuck = fmt.Sprintf("%d pods and %d containers were transmitted, the runtime holds %d and %d",
+						o.sumP, o.sumC, (o.limitP-50)/3, (o.limitC-50)/3)
+				}
+				if o.stuck != "" {
+					cb = o.onStuck
+				}
+			}
 			o.mu.Unlock()
+			if cb != nil {
+				cb()
+			}
 		}
 		return err
 	})
@@ -544,6 +586,8 @@ type history struct {
 	Plugin    string  `json:"plugin"`
 	Chunks    []Chunk `json:"chunks"`
 	RPCs      int     `json:"sync_rpcs"`
+	SentPods  int     `json:"rpc_pods_total"`
+	SentCtrs  int     `json:"rpc_ctrs_total"`
 	Calls     int     `json:"handler_calls"`
 	GotPods   int     `json:"handler_pods"`
 	GotCtrs   int     `json:"handler_ctrs"`
@@ -622,7 +666,7 @@ func runOnce(c C09Case) (ev.Outcome, bool) {
 	id := nextSeq()
 	name := fmt.Sprintf("sync%d", id)
 	hist := &history{Shape: sh, Plugin: name}
-	obs := &observer{}
+	obs := &observer{limitP: 3*len(pods) + 50, limitC: 3*len(ctrs) + 50}
 
 	classes := []string{
 		"class-" + sh.Class,
@@ -652,6 +696,7 @@ func runOnce(c C09Case) (ev.Outcome, bool) {
 			append([]any{sh.Class, len(pods), len(ctrs), sh.Whole}, a...)...)
 		obs.mu.Lock()
 		hist.Chunks, hist.RPCs, hist.Calls, hist.GotPods, hist.GotCtrs = obs.chunks, obs.rpcs, obs.calls, obs.gotP, obs.gotC
+		hist.SentPods, hist.SentCtrs = obs.sumP, obs.sumC
 		obs.mu.Unlock()
 		o.History = hist
 		o.Classes = classes
@@ -678,6 +723,9 @@ func runOnce(c C09Case) (ev.Outcome, bool) {
 		return nil
 	}
 	s := &slot{pods: pods, ctrs: ctrs, rtFail: c.RuntimeFails, done: make(chan struct{})}
+	if !noAbort {
+		obs.onStuck = s.abort
+	}
 	f.expect(s)
 	if err := p.NewStub(f.r.Socket, nil, stub.WithTTRPCOptions(nil,
 		[]ttrpc.ServerOpt{ttrpc.WithUnaryServerInterceptor(obs.intercept)})); err != nil {
@@ -753,11 +801,26 @@ func runOnce(c C09Case) (ev.Outcome, bool) {
 	default:
 		// class (a)/(b): every message the sender can form at its floor fits, so the state
 		// can be transmitted and must be.
+		obs.mu.Lock()
+		stuck := obs.stuck
+		obs.mu.Unlock()
+		if stuck != "" {
+			return fail("registration failed (%v) although every run of <=8 pods plus <=8 containers fits one message (largest: %d bytes): the sender stopped making progress (%s); the harness cut the transfer short, it would have ended at the %v request timeout",
+				s.err, sh.Worst, stuck, reqTimeout)
+		}
 		if s.elapsed >= reqTimeout*9/10 {
 			if n := obs.spinning(); n >= 1000 {
 				// not slowness: the sender spent its time sending messages without objects
 				return fail("registration failed (%v) although every run of <=8 pods plus <=8 containers fits one message (largest: %d bytes): the sender made no progress, its last %d messages carried no object and announced more, until the %v request timeout",
 					s.err, sh.Worst, n, reqTimeout)
+			}
+			obs.mu.Lock()
+			sp, sc := obs.sumP, obs.sumC
+			obs.mu.Unlock()
+			if sp > len(pods) || sc > len(ctrs) {
+				// not slowness either: the sender transmitted more objects than the runtime has
+				return fail("registration failed (%v) although every run of <=8 pods plus <=8 containers fits one message (largest: %d bytes): until the %v request timeout the sender transmitted %d pods and %d containers, more than the runtime holds",
+					s.err, sh.Worst, reqTimeout, sp, sc)
 			}
 			o, _ := fail("registration failed after %v (%v); the request timeout of %v may have expired because of load", s.elapsed, s.err, reqTimeout)
 			return o, true
@@ -932,6 +995,11 @@ func sweepCases() []C09Case {
 		add(uniform(n, (msgMax-70<<10)/16), uniform(n, (msgMax-70<<10)/16))
 		add(uniform(n, (msgMax-70<<10)/8), uniform(n, (msgMax-70<<10)/8))
 	}
+	// the runtime itself fails the synchronization: unsplit and split
+	add(uniform(2, 100), uniform(3, 100))
+	out[len(out)-1].RuntimeFails = true
+	add(uniform(3, 100), uniform(40, 300000))
+	out[len(out)-1].RuntimeFails = true
 	return out
 }
 
